@@ -107,6 +107,18 @@ CHECKS = {
    note="Backend-list and flag bookkeeping is compared as drift only (torch._dynamo.reset() in one module's call can make another module re-run its backends without changing results). compile (Inductor) only in the thorough tier.",
    technique="TLA+ heap-of-modules state machine + TLC over all histories; trace validation of replayed transform/call histories",
    design="4/C17"),
+ "C08": dict(
+   spec="spec/Modules.tla, Modules_MC.tla",
+   text="Modules.tla is the table of the 11 leaf modules: constructor options over their valid values (plus the values the library declares unsupported), the functional op each must equal, the ARGUMENT MAPPING (which option / parameter / mode feeds which functional argument, incl. the padded-input rule of Conv1d), parameter tags and initial-value classes, and the depth-container rule. TLC enumerates all 2338 configurations, checks that every option is forwarded, consumed by construction or rejected and that tags are known to the optimizer rules, and emits each configuration with its expectation. Every configuration is constructed for real: module(x) and all gradients are compared BITWISE with the functional call assembled from the spec's mapping (train/eval, two input shapes, pinned RNG), with the torch.nn twin (shape, positive scalar multiple), tags and initial values; composite modules (MLP, MHSA, TransformerLayer, TransformerDecoder) against compositions of functional ops on their own parameters; depth containers tag depth and refuse untagged parameters.",
+   note="Unit-variance of fresh weights is a sampling-error bound (5 sigma) on large instances. The composite references are harness-coded compositions of unit_scaling.functional.",
+   technique="TLA+ option/argument-mapping table + TLC enumeration; replay of TLC-emitted configurations against real modules",
+   design="4/C08"),
+ "C20": dict(
+   spec="spec/ScaledOps.tla (memo machine, Modes), ScaledOps_MC.tla, ScaledOps_Trace.tla",
+   text="The memo machine of ScaledOps keys a factor class by (configuration, slot) only; the events of one configuration recorded in eager mode, under torch.compile (aot_eager; thorough: inductor), through the library's leaf-wrapping tracer (gradients) and through plain fx.symbolic_trace (forward, where traceable) carry the same configuration id, so ScaledOps_Trace rejects a factor that differs between modes. In addition outputs and gradients are compared element-wise with the eager run with a dtype-scaled bound (float64: 1e-12), for a slice of the C01/C02 configurations (every op, f64/f32/bf16) and for random compositions of 2-6 unit-scaled ops and modules.",
+   note="TorchDynamo/AOT autograd/Inductor are trusted as given. Dropout with p>0 in training mode is excluded (RNG streams differ in torch itself). Ops that plain torch.fx cannot trace symbolically are skipped for the fx clause and counted in the evidence.",
+   technique="TLA+ memo machine across execution modes; trace validation + element-wise closeness to eager",
+   design="4/C20"),
 }
 CHECKS = dict(sorted(CHECKS.items()))
 
